@@ -52,7 +52,7 @@ def _run_one(args: Tuple[str, str, int, Dict[str, Any]]) -> Dict[str, Any]:
 
     try:
         base = Program.read_sources(repo)
-        srcs = apply_variant(base, v)
+        srcs = _patched_sources(repo, v["patch"]) if "patch" in v else apply_variant(base, v)
         if srcs is None:
             return {"name": v["name"], "status": "inapplicable"}
         try:
@@ -78,8 +78,45 @@ def _run_one(args: Tuple[str, str, int, Dict[str, Any]]) -> Dict[str, Any]:
         return {"name": v.get("name", "?"), "status": "FAILED", "detail": f"{type(e).__name__}: {e}"}
 
 
+def seeded_for(prop: str) -> List[Dict[str, Any]]:
+    """the independently seeded, confirmed property-breaking changes kept under /verif/seeded (patch files)"""
+    import json
+    base = os.path.join(os.path.dirname(os.path.dirname(os.path.abspath(__file__))), "seeded")
+    out = []
+    if not os.path.isdir(base):
+        return out
+    for name in sorted(os.listdir(base)):
+        meta = os.path.join(base, name, "meta.json")
+        patch = os.path.join(base, name, "patch.diff")
+        if os.path.isfile(meta) and os.path.isfile(patch):
+            try:
+                m = json.load(open(meta))
+            except Exception:
+                continue
+            if m.get("property") == prop:
+                out.append({"name": f"seeded/{name}", "expect": prop, "patch": patch})
+    return out
+
+
+def _patched_sources(repo: str, patch: str) -> Optional[Dict[str, Tuple[str, str, bool]]]:
+    """apply a patch file to a scratch copy of the package (removed at once) and read the sources back"""
+    import shutil
+    import subprocess
+    import tempfile
+
+    tmp = tempfile.mkdtemp(prefix="ddsverif-")
+    try:
+        shutil.copytree(os.path.join(repo, "dds"), os.path.join(tmp, "dds"), ignore=shutil.ignore_patterns("__pycache__"))
+        r = subprocess.run(["git", "apply", "-p1", patch], cwd=tmp, capture_output=True, text=True)
+        if r.returncode != 0:
+            return None
+        return Program.read_sources(tmp)
+    finally:
+        shutil.rmtree(tmp, ignore_errors=True)
+
+
 def selftest(prop: str, repo: str, seed: int, rep: Report) -> None:
-    vs = load_variants(prop)
+    vs = load_variants(prop) + seeded_for(prop)
     rnd = random.Random(seed)
     rnd.shuffle(vs)
     if len(vs) > 200:
@@ -108,7 +145,7 @@ def main() -> int:
     prop = sys.argv[1].upper()
     pat = sys.argv[2] if len(sys.argv) > 2 else ""
     repo = os.environ.get("VERIF_REPO", "/repo")
-    vs = [v for v in load_variants(prop) if pat in v["name"]]
+    vs = [v for v in load_variants(prop) + seeded_for(prop) if pat in v["name"]]
     with ProcessPoolExecutor(max_workers=min(16, max(1, len(vs)))) as ex:
         res = list(ex.map(_run_one, [(prop, repo, 0, v) for v in vs]))
     bad = 0
